@@ -151,6 +151,42 @@ def real_tebd_history(s, d, ks, ends):
     return tebd.step, [float(t) for t in r["time"]]
 
 
+class _Stop(Exception):
+    pass
+
+
+def truncated_runs():
+    """a user callable that starts failing mid-run: the computation must raise, never return a
+    dynamics that silently stops short of the requested grid.  Yields (what, outcome)."""
+    import io
+    import contextlib
+    import oqupy
+    from oqupy import operators as op
+    from . import oq
+
+    def ham(t):
+        if t > 1.1:              # (the constructors probe the callable once at t = 1.0)
+            raise _Stop("no Hamiltonian beyond t = 1.1")
+        return 0.5 * op.sigma("x")
+    for ptype in ("silent", "simple", "bar"):
+        for api in ("Tempo.compute", "compute_dynamics"):
+            out = io.StringIO()
+            try:
+                with contextlib.redirect_stdout(out):
+                    if api == "Tempo.compute":
+                        t = oqupy.Tempo(oqupy.TimeDependentSystem(ham), oq.cheap_bath(),
+                                        oq.cheap_params(0.25), op.spin_dm("z+"), start_time=0.0)
+                        dyn = t.compute(1.5, progress_type=ptype)
+                    else:
+                        dyn = oqupy.compute_dynamics(oqupy.TimeDependentSystem(ham),
+                                                     initial_state=op.spin_dm("z+"), dt=0.25,
+                                                     num_steps=6, start_time=0.0, progress_type=ptype)
+                outcome = "returned %d of 7 grid points without an error" % len(dyn.times)
+            except _Stop:
+                outcome = "raised"
+            yield "%s progress_type=%s" % (api, ptype), outcome
+
+
 def correspondence(res, tier, rng):
     import oqupy
     from oqupy import operators as op
@@ -323,6 +359,15 @@ def correspondence(res, tier, rng):
             ("dyn-add", ts))
         res.count("add-history:len=%d" % k)
 
+    # a failure inside the stepping loop is never turned into a shorter grid
+    for what, outcome in truncated_runs():
+        res.case("fault:" + what, True, None)
+        res.count("fault-propagates")
+        if outcome != "raised":
+            res.fail("truncated:" + what,
+                     {"api": what, "requested": "7 grid points 0.0 ... 1.5 (dt 0.25), Hamiltonian "
+                      "raises for t > 1.1", "outcome": outcome})
+
     out = fw.run_driver(PID, lines)
     if len(out) != len(lines):
         raise fw.Infra("driver returned %d lines for %d inputs" % (len(out), len(lines)))
@@ -484,6 +529,30 @@ def search(res, rng=None):
                      {"api": "PtTebd.compute", "start_time": s, "dt": d, "start_step": ks,
                       "end_steps": ends, "expected_final_step": top, "got_final_step": step,
                       "expected_times": want, "got_times": got})
+    # (2c') PtTebd: labels and propagation use the same dt, also when the parameters object is
+    #       changed between construction and the first compute
+    import oqupy as _oq
+    chain_ = _oq.SystemChain(hilbert_space_dimensions=[2, 2])
+    chain_.add_site_hamiltonian(site=0, hamiltonian=1.3 * op.sigma("x"))
+    chain_.add_site_hamiltonian(site=1, hamiltonian=0.7 * op.sigma("x"))
+    par_ = _oq.PtTebdParameters(dt=0.1, order=1, epsrel=1.0e-7)
+    up_ = op.spin_dm("z+")
+    tebd_ = _oq.PtTebd(initial_augmented_mps=_oq.AugmentedMPS([up_, up_]), system_chain=chain_,
+                       process_tensors=[None, None], parameters=par_, dynamics_sites=[0],
+                       start_time=0.5)
+    par_.dt = 0.05
+    r_ = tebd_.compute(end_step=4, progress_type="silent")
+    got_t = [float(x) for x in r_["time"]]
+    sz = [float(np.real(np.trace(op.sigma("z") @ st))) for st in r_["dynamics"][0].states]
+    # uncoupled spin: <sz>(t) = cos(2*1.3*(t - start)); which dt did the propagation use?
+    used = [dt_ for dt_ in (0.1, 0.05)
+            if max(abs(z - np.cos(2.6 * k * dt_)) for k, z in enumerate(sz)) < 1e-6]
+    want_t = [0.5 + k * used[0] for k in range(5)] if used else None
+    if want_t is None or got_t != want_t:
+        res.fail("labels:PtTebd parameters.dt changed between construction and compute",
+                 {"api": "PtTebd", "sequence": "PtTebdParameters(dt=0.1); PtTebd(...); parameters.dt "
+                  "= 0.05; compute(4)", "dt_used_by_the_propagation": used, "got_times": got_t,
+                  "expected_times": want_t, "sz_site0": sz})
     # (2d) views read between two compute calls: the states handed out afterwards are those of
     #      the whole history, aligned with the times
     for api in ("tempo", "mft", "tebd"):
